@@ -20,6 +20,24 @@ fn origin_of_result(src: Origin, r: &Bytes) -> Origin {
     }
 }
 
+/// An empty `Bytes` that was the sole holder of allocation `key0` has been converted into `m`: `m` must sit on that
+/// allocation (its buffer, as H2 reports it, is a live block with the same ledger identity).
+fn empty_conversion_keeps_storage(d: &mut Driver, op: &str, key0: Option<u64>, m: &BytesMut, rname: &str) {
+    let Some(k) = key0 else { return };
+    let r = m.__verif_repr();
+    d.count("empty_unique_conversions");
+    let now = if r.buf_cap == 0 {
+        None
+    } else if super::mem::ENABLED {
+        super::mem::find_live(r.buf_start).map(|b| b.seq)
+    } else {
+        Some(r.buf_start as u64)
+    };
+    if now != Some(k) {
+        d.viol("C08", &format!("{op}-empty-lost-allocation"), &format!("{op} of an empty, uniquely held Bytes ({rname}) returned a BytesMut that is not on the allocation the Bytes held (buffer {:#x}+{}, capacity {})", r.buf_start, r.buf_cap, m.capacity()));
+    }
+}
+
 pub fn bytes_step(d: &mut Driver, ch: &mut dyn Chooser, i: usize, full: bool) {
     let mut op = ch.choose(N_OPS);
     if full && !ch.exhaustive() && matches!(op, 0..=5 | 9) {
@@ -32,6 +50,9 @@ pub fn bytes_step(d: &mut Driver, ch: &mut dyn Chooser, i: usize, full: bool) {
     let sid = s.id;
     let len = s.model.len();
     let p0 = s.ptr();
+    // the storage an *empty* handle still holds (None for detached empties): a sole owner converting it into a
+    // BytesMut must get that allocation back, not a fresh empty buffer (C08: "returns the same memory")
+    let key0 = if len == 0 && s.origin == Origin::Heap { d.storage_key(&s) } else { None };
     let b: &mut Bytes = match &mut s.val {
         Val::B(b) => b,
         _ => unreachable!(),
@@ -232,6 +253,7 @@ pub fn bytes_step(d: &mut Driver, ch: &mut dyn Chooser, i: usize, full: bool) {
                         }
                         expect_no_byte_alloc(d, "try_into_mut", &ev, &rname);
                         d.cell(format!("B|{rname}|try_into_mut|-|ok"));
+                        empty_conversion_keeps_storage(d, "try_into_mut", key0, &m, &rname);
                         d.add(Val::M(m), model, Origin::Heap);
                     }
                     Err(b) => {
@@ -262,6 +284,7 @@ pub fn bytes_step(d: &mut Driver, ch: &mut dyn Chooser, i: usize, full: bool) {
                         expect_ptr(d, "into_mut_unique", "result", m.as_ptr() as usize, p0, &rname);
                     }
                     expect_no_byte_alloc(d, "into_mut_unique", &ev, &rname);
+                    empty_conversion_keeps_storage(d, "into_mut_unique", key0, &m, &rname);
                 }
                 if owner_backed && m[..] != model[..] {
                     d.viol("C03", "owner-released-before-copy", &format!("BytesMut::from(owner-backed Bytes) returned bytes that differ from the view ({rname}): the owner's memory was released before it was copied"));
